@@ -298,7 +298,7 @@ def validate(sessions, workdir, tag, stats):
             for e in ev:
                 rows.append(e)
                 owner.append(sid)
-        vlib.ndjson_write(path, rows)
+        vlib.ndjson_write(path, rows, tla=True)
         res, r = tlc_trace(path, os.environ.get("C12_TRACE_CFG", "TraceDap_model_current.cfg"), f"c12-V-{tag}-{rounds}")
         stats["tlc_trace_runs"] += 1
         stats["trace_states"] += r.distinct
@@ -324,7 +324,7 @@ def validate(sessions, workdir, tag, stats):
             for e in ev:
                 rows.append(e)
                 owner.append(sid)
-        vlib.ndjson_write(path, rows)
+        vlib.ndjson_write(path, rows, tla=True)
         res, r = tlc_trace(path, "TraceDap_mon.cfg", f"c12-V-{tag}-mon")
         stats["tlc_trace_runs"] += 1
         if res["consumed"] < len(rows):
